@@ -360,12 +360,62 @@ def _simple_apply(dst, cls):
     return cls.n
 
 
+# ---- extract-helper: `x = E` (E a call / arithmetic / subscript expression over locals)  ->
+#          def _hN(a, b): return E
+#          x = _hN(a, b)
+#      with a, b the local names E reads (parameters and assigned locals of the enclosing function, in order of appearance).  The helper
+#      is defined right in front of the statement, takes everything it reads as arguments and has no effect: behaviour preserving.
+class ExtractHelper(ast.NodeTransformer):
+    n = 0
+    every = 3
+
+    def visit_FunctionDef(self, node):
+        self.generic_visit(node)
+        a = node.args
+        locals_ = {x.arg for x in a.posonlyargs + a.args + a.kwonlyargs} | ({a.vararg.arg} if a.vararg else set()) | ({a.kwarg.arg} if a.kwarg else set())
+        locals_ |= {x.id for x in ast.walk(node) if isinstance(x, ast.Name) and isinstance(x.ctx, ast.Store)}
+        taken = {x.id for x in ast.walk(node) if isinstance(x, ast.Name)}
+        node.body = self._block(node.body, locals_, taken)
+        return node
+
+    def _block(self, body, locals_, taken):
+        out = []
+        for st in body:
+            for fld in ("body", "orelse", "finalbody"):
+                if isinstance(getattr(st, fld, None), list) and not isinstance(st, (ast.FunctionDef, ast.ClassDef, ast.AsyncFunctionDef)):
+                    setattr(st, fld, self._block(getattr(st, fld), locals_, taken))
+            if isinstance(st, ast.Assign) and len(st.targets) == 1 and isinstance(st.targets[0], ast.Name) and \
+                    isinstance(st.value, (ast.Call, ast.BinOp, ast.Subscript)) and \
+                    not any(isinstance(x, (ast.Lambda, ast.Yield, ast.YieldFrom, ast.Await, ast.NamedExpr, ast.Starred, ast.ListComp, ast.DictComp, ast.SetComp,
+                                           ast.GeneratorExp)) for x in ast.walk(st.value)) and \
+                    not any(isinstance(x, ast.Call) and isinstance(x.func, ast.Name) and x.func.id in ("super", "locals", "vars") for x in ast.walk(st.value)):
+                ExtractHelper.n += 1
+                if ExtractHelper.n % ExtractHelper.every == 0:
+                    reads = []
+                    for x in ast.walk(st.value):
+                        if isinstance(x, ast.Name) and isinstance(x.ctx, ast.Load) and x.id in locals_ and x.id not in reads:
+                            reads.append(x.id)
+                    name = f"_h{ExtractHelper.n}"
+                    if name not in taken:
+                        fn = ast.FunctionDef(name=name, args=ast.arguments(posonlyargs=[], args=[ast.arg(arg=r) for r in reads], kwonlyargs=[], kw_defaults=[], defaults=[]),
+                                             body=[ast.Return(value=st.value)], decorator_list=[], type_params=[])
+                        call = ast.Call(func=ast.Name(id=name, ctx=ast.Load()), args=[ast.Name(id=r, ctx=ast.Load()) for r in reads], keywords=[])
+                        out += [fn, ast.Assign(targets=st.targets, value=call)]
+                        continue
+            out.append(st)
+        return out
+
+
 _old_apply3 = apply
 
 
 def apply(dst, mode):   # noqa: F811
     if mode == "comp-to-loop":
         return _comp_apply(dst)
+    if mode == "extract-helper":
+        ExtractHelper.n = 0
+        n_ = _simple_apply(dst, ExtractHelper)
+        return n_ // ExtractHelper.every
     if mode == "default-if":
         return _simple_apply(dst, DefaultIf)
     if mode == "early-continue":
